@@ -82,8 +82,8 @@ type WaitLoop struct {
 
 // PredRead is one read feeding a wait-loop test.
 type PredRead struct {
-	Instr ssa.Instruction
-	Path  ir.Path
+	Instr  ssa.Instruction
+	Path   ir.Path
 	Atomic bool
 }
 
